@@ -10,6 +10,12 @@ Case JSON (self-contained):
                     (false: only the cache the mapping designates for the key, as index.save does)
    "fails":  [["r0", "f1"], ...]                    uploads that raise in the first push
    "ffails": [["n0", "f1"], ...]                    uploads that raise in the first fetch (optional)
+   "via_add": bool                                  the storage map is built through add_cache / add_remote (in the
+                    order of "map", cache first) instead of storage_map[prefix] = StorageInfo(...); each helper
+                    stores a merged copy of what the prefix resolves to at that moment
+   "ro_fetch": ["r1"]                               remotes attached read_only=True on the consumer (fetch) side
+   "ro_push": ["r1"]                                remotes attached read_only=True on the push side: they must
+                    receive nothing (the fetch side is then not run)
    "eacces": bool                                   injected failures are PermissionError (else EIO)
    "tmp":    ["c0", "r1"]                           stores configured with a tmp_dir (optional): a remote
                     with one keeps a real persistent ObjectDBIndex; on a cache it must have no effect}
@@ -43,6 +49,8 @@ ASSUMPTIONS = [
     "the others ObjectDBIndexNoop; a tmp_dir on a cache must not change anything",
     "precondition of the passing stream: every remote group is served by one cache and that cache holds every object "
     "under the group's prefixes (collect keeps the first prefix's cache per remote); remotes start closed (C04)",
+    "storage maps are built directly or through add_cache/add_remote; the oracle and the model reason about the map "
+    "the helpers store (simulated independently); remotes may be attached read_only on either side",
     "upload faults are injected per (destination store, object id) through put_file of the destination file system",
     "a directory entry that some prefix covers has a remote designated for its own key (else a fetch into an empty "
     "cache cannot load it: DataIndexDirError)",
@@ -120,6 +128,29 @@ def covered(smap, k):
     return any(is_prefix(p, k) for p, _ in smap)
 
 
+def effective(declared):
+    """the stored map after building `declared` through the add_* helpers, simulated independently:
+    add_<role>(storage) does info = (what storage.key resolves to now, merged, as a fresh copy) or an empty
+    StorageInfo; info.<role> = storage; map[storage.key] = info"""
+    eff = []
+    for p, info in declared:
+        for role in ("cache", "remote"):
+            if not info.get(role):
+                continue
+            if any(is_prefix(q, p) for q, _ in eff):
+                cur = {r: resolve(eff, p, r) for r in ("cache", "remote")}
+            else:
+                cur = {"cache": None, "remote": None}
+            cur[role] = info[role]
+            for e in eff:
+                if e[0] == p:
+                    e[1] = cur
+                    break
+            else:
+                eff.append([p, cur])
+    return [(p, dict(i)) for p, i in eff]
+
+
 class Case:
     def __init__(self, case):
         self.case = case
@@ -144,10 +175,16 @@ class Case:
         self.tok = {o: t for t, o in self.oid.items()}
         assert len(self.tok) == len(self.oid), "two tokens with one id"
         self.tokens = list(self.oid)
-        self.map = [(tuple(p), dict(info)) for p, info in case["map"]]
-        caches = sorted({i["cache"] for _, i in self.map if i.get("cache")})
+        self.dmap = [(tuple(p), dict(info)) for p, info in case["map"]]      # as declared
+        caches = sorted({i["cache"] for _, i in self.dmap if i.get("cache")})
         self.fresh = {c: "n" + c[1:] for c in caches}
-        self.fmap = [(p, {"cache": self.fresh.get(i.get("cache")), "remote": i.get("remote")}) for p, i in self.map]
+        self.dfmap = [(p, {"cache": self.fresh.get(i.get("cache")), "remote": i.get("remote")}) for p, i in self.dmap]
+        self.via_add = bool(case.get("via_add"))
+        # the map the implementation ends up with (what the oracle and the model reason about)
+        self.map = effective(self.dmap) if self.via_add else self.dmap
+        self.fmap = effective(self.dfmap) if self.via_add else self.dfmap
+        self.ro_push = set(case.get("ro_push") or [])
+        self.ro_fetch = set(case.get("ro_fetch") or [])
         self.remotes = sorted({i["remote"] for _, i in self.map if i.get("remote")})
         self.caches = caches
         self.stores = caches + self.remotes + [self.fresh[c] for c in caches]
@@ -176,13 +213,16 @@ class Case:
                 out.update(f for _, f in self.dirs[t])
         return out
 
-    def groups(self, smap):
-        """[(remote, cache, set of tokens)] in order of first appearance - what collect should build"""
+    def groups(self, smap, ro=None):
+        """[(remote, cache, set of tokens)] in order of first appearance - what collect should build;
+        ro: remotes attached read_only (a push leaves them out; default: the push side's for the push map)"""
+        if ro is None:
+            ro = self.ro_push if smap is self.map else ()
         gs = []
         es = self.entries(smap)
         for p, _ in smap:
             r = resolve(smap, p, "remote")
-            if r is None:
+            if r is None or r in ro:
                 continue
             c = resolve(smap, p, "cache")
             req = {t for k, t in es if is_prefix(p, k)}
@@ -252,7 +292,7 @@ def listing(path, C):
     return out
 
 
-def build_index(C, smap, odbs):
+def build_index(C, declared, odbs, ro=()):
     from dvc_data.hashfile.hash_info import HashInfo
     from dvc_data.hashfile.meta import Meta
     from dvc_data.index import DataIndex, DataIndexEntry, ObjectStorage, StorageInfo
@@ -260,11 +300,21 @@ def build_index(C, smap, odbs):
     idx = DataIndex()
     for kind, k, t in C.items:
         idx[k] = DataIndexEntry(key=k, meta=Meta(isdir=(kind == "dir")), hash_info=HashInfo("md5", C.oid[t]))
-    for p, info in smap:
-        idx.storage_map[p] = StorageInfo(
-            cache=ObjectStorage(p, odbs[info["cache"]]) if info.get("cache") else None,
-            remote=ObjectStorage(p, odbs[info["remote"]]) if info.get("remote") else None,
-        )
+
+    def remote(p, r):
+        return ObjectStorage(p, odbs[r], read_only=True) if r in ro else ObjectStorage(p, odbs[r])
+
+    for p, info in declared:
+        if C.via_add:
+            if info.get("cache"):
+                idx.storage_map.add_cache(ObjectStorage(p, odbs[info["cache"]]))
+            if info.get("remote"):
+                idx.storage_map.add_remote(remote(p, info["remote"]))
+        else:
+            idx.storage_map[p] = StorageInfo(
+                cache=ObjectStorage(p, odbs[info["cache"]]) if info.get("cache") else None,
+                remote=remote(p, info["remote"]) if info.get("remote") else None,
+            )
     return idx
 
 
@@ -347,7 +397,7 @@ def run_real(ctx, C):
             fss[s].fails = frozenset()
         obs["rounds"].append(rd)
 
-    pidx = build_index(C, C.map, odbs)
+    pidx = build_index(C, C.dmap, odbs, C.ro_push)
     one("push", pidx, [tuple(f) for f in case.get("fails") or []])
     one("push", pidx, [])
     obs["checkout"] = None
@@ -360,7 +410,11 @@ def run_real(ctx, C):
                 # the fetch side would only repeat it
                 impl.rm_rf(root)
                 return obs
-    fidx = build_index(C, C.fmap, odbs)
+    if C.ro_push:
+        # a read_only remote received nothing: the consumer side has nothing to fetch from it
+        impl.rm_rf(root)
+        return obs
+    fidx = build_index(C, C.dfmap, odbs, C.ro_fetch)
     if case.get("ffails"):
         one("fetch", fidx, [tuple(f) for f in case["ffails"]])
     one("fetch", fidx, [])
@@ -372,7 +426,7 @@ def run_real(ctx, C):
         ws = os.path.join(root, "ws")
         errs = []
         try:
-            cidx = build_index(C, C.fmap, odbs)
+            cidx = build_index(C, C.dfmap, odbs, C.ro_fetch)
             diff = compare(None, cidx)
             apply(diff, ws, localfs, storage="cache", onerror=lambda *a: errs.append(a))
             obs["checkout"] = {"files": impl.walk_files(ws) if os.path.isdir(ws) else {}, "errors": len(errs)}
@@ -441,6 +495,11 @@ def judge(C, obs):
             if (s[0] == "c" and kind == "push") or (s[0] == "r" and kind == "fetch"):
                 if gained:
                     problems.append((f"C18:{kind}-source-modified", f"round {i}: source store {s} gained {sorted(gained)}"))
+        if kind == "push":
+            for r in sorted(C.ro_push):
+                if set(after[r]) != set(before[r]):
+                    problems.append(("C18:push-into-read-only-remote",
+                                     f"round {i}: remote {r} is attached read_only and received {sorted(set(after[r]) - set(before[r]))}"))
         if moved + failed != new_total:
             problems.append((f"C18:{kind}-counts", f"round {i}: {kind} returned ({moved}, {failed}); objects that had to move: {new_total}"))
         if moved != arrived:
@@ -454,7 +513,8 @@ def judge(C, obs):
             if failed:
                 problems.append((f"C18:{kind}-retry-incomplete", f"round {i}: clean retry still reports {failed} failed"))
             role = "remote" if kind == "push" else "cache"
-            for s in (C.remotes if kind == "push" else [C.fresh[c] for c in C.caches]):
+            for s in ([r for r in C.remotes if r not in C.ro_push] if kind == "push"
+                      else [C.fresh[c] for c in C.caches]):
                 des = C.designated(smap, role, s) if kind == "push" else {
                     t for k, t in C.entries(smap)
                     if resolve(smap, k, "cache") == s and resolve(smap, k, "remote") is not None}
@@ -540,8 +600,10 @@ def model_terms(C, obs):
     for rd in obs["rounds"]:
         smap = C.map if rd["kind"] == "push" else C.fmap
         fails = clist([cpair(cN(C.sid(d)), coid(t)) for d, t in rd["fails"]])
-        rounds.append("{| r_kind := %s; r_map := %s; r_fails := %s |}"
-                      % ("RPush" if rd["kind"] == "push" else "RFetch", csmap(C, smap), fails))
+        ro = sorted(C.ro_push) if rd["kind"] == "push" else sorted(C.ro_fetch)
+        rounds.append("{| r_kind := %s; r_map := %s; r_fails := %s; r_ro := %s |}"
+                      % ("RPush" if rd["kind"] == "push" else "RFetch", csmap(C, smap), fails,
+                         clist([cN(C.sid(r)) for r in ro])))
     co = obs.get("checkout")
     if co is not None and co.get("errors"):
         co = None  # a checkout that hit a missing object stops part-way (C09's subject); the oracle judges it
@@ -657,7 +719,7 @@ def gen_base(rng):
         if rng.random() < 0.3:
             tmp.append(r)
     return {"files": files, "items": items, "map": smap, "cls": cls, "pre": {}, "topup": True, "fails": [],
-            "tmp": tmp}
+            "tmp": tmp, "via_add": rng.random() < 0.35}
 
 
 def gen_shared(rng):
@@ -687,7 +749,7 @@ def gen_shared(rng):
         if rng.random() < 0.2:
             tmp.append(r)
     return {"files": files, "items": items, "map": smap, "cls": cls, "pre": {}, "topup": True, "fails": [],
-            "tmp": tmp}
+            "tmp": tmp, "via_add": rng.random() < 0.35}
 
 
 def usable(case, rng=None):
@@ -815,6 +877,37 @@ CORPUS += [
 ]
 
 
+CORPUS += [
+    # the map is built through add_cache / add_remote, parent then child: the child's remote must not leak into
+    # the root's StorageInfo
+    {"files": {"f0": b"A".hex(), "f1": b"B".hex(), "f2": b"C".hex()},
+     "items": [["dir", ["d"], [["a", "f0"], ["b", "f1"]]], ["file", ["other", "f"], "f2"], ["file", ["g"], "f0"]],
+     "map": [[[], {"cache": "c0", "remote": "r0"}], [["other"], {"cache": None, "remote": "r1"}]],
+     "cls": {"r0": "base", "r1": "base"}, "pre": {}, "topup": True, "fails": [], "via_add": True},
+    # child then parent, the child with a cache of its own
+    {"files": {"f0": b"A".hex(), "f1": b"B".hex()},
+     "items": [["file", ["other", "f"], "f1"], ["file", ["g"], "f0"]],
+     "map": [[["other"], {"cache": "c1", "remote": "r1"}], [[], {"cache": "c0", "remote": "r0"}]],
+     "cls": {"r0": "local", "r1": "base"}, "pre": {}, "topup": True, "fails": [["r0", "f0"]], "via_add": True},
+    # three nested prefixes added outermost, innermost, middle: the innermost keeps the copy it took at the time
+    {"files": {"f0": b"A".hex(), "f1": b"B".hex(), "f2": b"C".hex()},
+     "items": [["file", ["p", "q", "x"], "f0"], ["file", ["p", "y"], "f1"], ["file", ["z"], "f2"]],
+     "map": [[[], {"cache": "c0", "remote": "r0"}], [["p", "q"], {"cache": None, "remote": "r1"}],
+             [["p"], {"cache": None, "remote": "r2"}]],
+     "cls": {"r0": "base", "r1": "base", "r2": "local"}, "pre": {}, "topup": True, "fails": [], "via_add": True},
+    # sibling prefixes, the consumer attaches one remote read_only: a fetch must still bring its objects
+    {"files": {"f0": b"A".hex(), "f1": b"B".hex(), "f2": b"C".hex()},
+     "items": [["dir", ["a"], [["x", "f0"], ["sub/y", "f1"]]], ["file", ["b", "f"], "f2"]],
+     "map": [[["a"], {"cache": "c0", "remote": "r0"}], [["b"], {"cache": "c0", "remote": "r1"}]],
+     "cls": {"r0": "base", "r1": "base"}, "pre": {}, "topup": True, "fails": [], "ro_fetch": ["r0"]},
+    # the producer attaches a remote read_only: a push leaves it alone
+    {"files": {"f0": b"A".hex(), "f1": b"B".hex()},
+     "items": [["file", ["a", "f"], "f0"], ["file", ["b", "f"], "f1"]],
+     "map": [[["a"], {"cache": "c0", "remote": "r0"}], [["b"], {"cache": "c0", "remote": "r1"}]],
+     "cls": {"r0": "base", "r1": "local"}, "pre": {}, "topup": True, "fails": [["r0", "f0"]], "ro_push": ["r1"]},
+]
+
+
 def features(C, obs):
     f = []
     f.append(f"prefixes:{len(C.map)}")
@@ -827,6 +920,12 @@ def features(C, obs):
         f.append("role-fallback")
     if C.case.get("pre"):
         f.append("remote-prepopulated")
+    if C.via_add:
+        f.append("map-built-through-add_*" + (":stored-map-differs" if C.map != C.dmap else ""))
+    if C.ro_fetch:
+        f.append("read_only-remote:fetch-side")
+    if C.ro_push:
+        f.append("read_only-remote:push-side")
     f.append("tmp_dir:caches=%d,remotes=%d" % (sum(1 for c in C.caches if c in C.tmp), len(C.indexed)))
     loose = {t for kind, k, t in C.items if kind == "file"}
     listed = {fl for d in C.dirs.values() for _, fl in d}
@@ -925,6 +1024,12 @@ def run(ctx):
             continue
         ctx.count("stream:" + (C.klass() or "passing"))
         add_pre(ctx.rng, base, C)
+        if C.klass() is None:
+            x = ctx.rng.random()
+            if x < 0.25:
+                base["ro_fetch"] = sorted(ctx.rng.sample(C.remotes, ctx.rng.randint(1, len(C.remotes))))
+            elif x < 0.35:
+                base["ro_push"] = [ctx.rng.choice(C.remotes)]
         C = Case(base)
         ups = uploads_of(C)
         if not ups:
